@@ -1,2 +1,129 @@
--- stub: replaced when the area is built
-def main : IO Unit := pure ()
+import Nstd.Common.Basic
+import Nstd.Json.Model
+/-
+  Line protocol of the Json area (same as harness/json.cpp):
+    parse <hex>   ->  ok <dump> | err <line> <col>
+    strip <hex>   ->  <hex>
+    tostr <dump>  ->  <hex of toString>
+    rt <dump>     ->  ok <dump of parse (toString v)> <v' == v> | err <line> <col>
+  dump: n | t | f | d | i<dec> | l<dec> | s<hex> | [V,...] | {<hex>:V,...}
+-/
+open Nstd.Common
+namespace Nstd.Json
+
+def hexOf (bs : List Byte) : String := toHex bs
+
+partial def dumpVal : Val → String
+  | .null => "n"
+  | .bool b => if b then "t" else "f"
+  | .dbl _ => "d"
+  | .int i => s!"i{i}"
+  | .int64 i => s!"l{i}"
+  | .str s => "s" ++ hexOf s
+  | .list l => "[" ++ ",".intercalate (l.map dumpVal) ++ "]"
+  | .map m => "{" ++ ",".intercalate (m.map (fun kv => hexOf kv.1 ++ ":" ++ dumpVal kv.2)) ++ "}"
+
+def isHexChar (c : Char) : Bool := (Nstd.Common.hexVal c).isSome
+
+def readHexStr (cs : List Char) : Option (List Byte × List Char) :=
+  match cs with
+  | '-' :: r => some ([], r)
+  | _ =>
+    let h := cs.takeWhile isHexChar
+    let r := cs.dropWhile isHexChar
+    if h.isEmpty then none
+    else match fromHexChars h with
+      | some bs => some (bs, r)
+      | none => none
+
+def readDec (cs : List Char) (lo hi : Int) : Option (Int × List Char) :=
+  let (neg, ds) := match cs with
+    | '-' :: r => (true, r)
+    | _ => (false, cs)
+  let d := ds.takeWhile Char.isDigit
+  let r := ds.dropWhile Char.isDigit
+  if d.isEmpty || d.length > 19 then none
+  else
+    let n : Nat := d.foldl (fun a c => a * 10 + (c.toNat - 48)) 0
+    let i : Int := if neg then -(n : Int) else n
+    if i < lo || i > hi then none else some (i, r)
+
+mutual
+partial def readVal (cs : List Char) : Option (Val × List Char) :=
+  match cs with
+  | 'n' :: r => some (.null, r)
+  | 't' :: r => some (.bool true, r)
+  | 'f' :: r => some (.bool false, r)
+  | 'i' :: r => (readDec r (-2147483648) 2147483647).map (fun (i, r) => (.int i, r))
+  | 'l' :: r => (readDec r (-9223372036854775808) 9223372036854775807).map (fun (i, r) => (.int64 i, r))
+  | 's' :: r => (readHexStr r).map (fun (s, r) => (.str s, r))
+  | '[' :: ']' :: r => some (.list [], r)
+  | '[' :: r => readItems r []
+  | '{' :: '}' :: r => some (.map [], r)
+  | '{' :: r => readEntries r []
+  | _ => none
+partial def readItems (cs : List Char) (acc : List Val) : Option (Val × List Char) :=
+  match readVal cs with
+  | some (v, ',' :: r) => readItems r (acc ++ [v])
+  | some (v, ']' :: r) => some (.list (acc ++ [v]), r)
+  | _ => none
+partial def readEntries (cs : List Char) (acc : List (List Byte × Val)) : Option (Val × List Char) :=
+  match readHexStr cs with
+  | some (k, ':' :: r) =>
+    match readVal r with
+    | some (v, ',' :: r) => readEntries r (mapAppend acc k v)
+    | some (v, '}' :: r) => some (.map (mapAppend acc k v), r)
+    | _ => none
+  | _ => none
+end
+
+def readDump (s : String) : Option Val :=
+  match readVal s.toList with
+  | some (v, []) => some v
+  | _ => none
+
+/-- the buffer handed to the C++ code: the bytes and the terminating NUL -/
+def cbuf (bs : List Byte) : List Byte := bs ++ [0]
+
+def showParse (buf : List Byte) (orig : Option Val) : String :=
+  match parse buf with
+  | .ok v =>
+    "ok " ++ dumpVal v ++
+      (match orig with
+       | none => ""
+       | some o => match veq v o with
+         | some true => " 1"
+         | some false => " 0"
+         | none => " unmodelled")
+  | .err l c => s!"err {l} {c}"
+  | .oob => "OOB"
+  | .nofuel => "NOFUEL"
+
+def stepLine (_ : Unit) (ws : List String) : Unit × String :=
+  match ws with
+  | ["reset"] => ((), "ready")
+  | ["parse", h] =>
+    match fromHex h with
+    | some bs => ((), showParse (cbuf bs) none)
+    | none => ((), "bad-op")
+  | ["strip", h] =>
+    match fromHex h with
+    | some bs =>
+      ((), match stripComments (cbuf bs) with
+           | .ok out => hexOf out
+           | .oob => "OOB"
+           | .nofuel => "NOFUEL")
+    | none => ((), "bad-op")
+  | ["tostr", d] =>
+    match readDump d with
+    | some v => ((), hexOf (toString v))
+    | none => ((), "bad-op")
+  | ["rt", d] =>
+    match readDump d with
+    | some v => ((), showParse (cbuf (toString v)) (some v))
+    | none => ((), "bad-op")
+  | _ => ((), "bad-op")
+
+end Nstd.Json
+
+def main : IO Unit := Nstd.Common.ioLoop () Nstd.Json.stepLine
